@@ -126,6 +126,43 @@ pub fn exec(_ctx: &mut Ctx, t: &mut Toks) -> String {
             }
             out
         }
+        ("vec", "trajl") => {
+            // as `traj`, but the last point joins the vector at frame `late` (initiated on its own and appended):
+            // the elements of the state slice then have different histories
+            let wp = t.f32();
+            let wv = t.f32();
+            let npts = t.usize();
+            let n = t.usize();
+            let late = t.usize();
+            let vf = Vec2DKalmanFilter::new(wp, wv);
+            let pf = Point2DKalmanFilter::new(wp, wv);
+            let read = |t: &mut Toks| -> Vec<Point2<f32>> { (0..npts).map(|_| Point2::from([t.f32(), t.f32()])).collect() };
+            let p0 = read(t);
+            let mut vs = vf.initiate(&p0[..npts - 1]);
+            let mut ps: Vec<_> = p0[..npts - 1].iter().map(|p| pf.initiate(p)).collect();
+            let mut same = true;
+            for i in 1..n {
+                let z = read(t);
+                let k = vs.len();
+                vs = vf.predict(&vs);
+                ps = ps.iter().map(|s| pf.predict(s)).collect();
+                let dv = vf.distance(&vs, &z[..k]);
+                let dp: Vec<f32> = ps.iter().zip(z.iter()).map(|(s, p)| pf.distance(s, p)).collect();
+                same &= dv.iter().zip(dp.iter()).all(|(a, b)| a.to_bits() == b.to_bits());
+                vs = vf.update(&vs, &z[..k]);
+                ps = ps.iter().zip(z.iter()).map(|(s, p)| pf.update(s, p)).collect();
+                same &= vs.iter().zip(ps.iter()).all(|(a, b)| a.verif_raw() == b.verif_raw());
+                if i == late {
+                    vs.push(pf.initiate(&z[npts - 1]));
+                    ps.push(pf.initiate(&z[npts - 1]));
+                }
+            }
+            let mut out = format!("{} {}", if same { 1 } else { 0 }, vs.len());
+            for s in &vs {
+                out.push_str(&format!(" {}", show(s)));
+            }
+            out
+        }
         _ => format!("UNKNOWN-OP {kind} {op}"),
     }
 }
